@@ -1,6 +1,9 @@
-// vinstr generates the build overlay (tag verif) from /repo's current working
-// tree: accessor files added to repository packages and type-directed source
-// rewrites.  Nothing is written to /repo.
+// vinstr generates the build overlay (tag verif) from the repository's current working tree:
+//   - accessor files added to repository packages,
+//   - the virtual packages langserver/vrt (controlled runtime) and langserver/vrt/vsync,
+//   - instrumented copies of every non-test source file under langserver (purely syntactic rewrites, see DESIGN.md §8.4),
+//   - two files of the Go runtime (map iteration start and goroutine id hooks).
+// Nothing is written to the repository.
 package main
 
 import (
@@ -12,20 +15,22 @@ import (
 	"go/parser"
 	"go/token"
 	"os"
+	"os/exec"
 	"path/filepath"
+	"strings"
 )
 
-var repo = func() string {
-	if r := os.Getenv("VERIF_REPO"); r != "" {
-		return r + "/luahelper-lsp"
-	}
-	return "/repo/luahelper-lsp"
-}()
 var home = func() string {
 	if h := os.Getenv("VERIF_HOME"); h != "" {
 		return h
 	}
 	return "/verif"
+}()
+var repo = func() string {
+	if r := os.Getenv("VERIF_REPO"); r != "" {
+		return r + "/luahelper-lsp"
+	}
+	return "/repo/luahelper-lsp"
 }()
 var buildDir = func() string {
 	if os.Getenv("VERIF_REPO") != "" {
@@ -58,48 +63,450 @@ func writeIfChanged(path string, b []byte) {
 	must(os.WriteFile(path, b, 0o644))
 }
 
-// dropTelemetry removes `go l.UDPReportOnline()` (a detached goroutine that
-// opens a UDP socket and sleeps for ever) from initialize.go.
-func dropTelemetry(ov *overlay) {
-	src := filepath.Join(repo, "langserver/initialize.go")
-	fset := token.NewFileSet()
-	f, err := parser.ParseFile(fset, src, nil, parser.ParseComments)
-	must(err)
-	n := 0
-	ast.Inspect(f, func(nd ast.Node) bool {
-		bl, ok := nd.(*ast.BlockStmt)
+// receiver types whose methods become activation / scheduling points
+var sharedTypes = map[string]bool{"LspServer": true, "AllProject": true, "GlobalConfig": true, "DirManager": true, "FileMapCache": true,
+	"FileIndexInfo": true, "LRUCache": true, "CompleteCache": true, "FileStruct": true, "SingleProjectResult": true, "AnalysisThird": true}
+
+// range expressions known to be channels (purely syntactic instrumenter; an unlisted channel range would
+// block outside the scheduler and is reported as a harness error, never as a violation)
+func isChanRange(e ast.Expr) bool {
+	if id, ok := e.(*ast.Ident); ok {
+		n := strings.ToLower(id.Name)
+		return strings.HasSuffix(n, "chan") || strings.HasSuffix(n, "ch")
+	}
+	return false
+}
+
+type stats struct {
+	gos, sends, recvs, closes, selects, ranges, recovers, methods, writers, cpus, clocks, syncs, dropped int
+}
+
+func rootIdent(e ast.Expr) string {
+	for {
+		switch x := e.(type) {
+		case *ast.Ident:
+			return x.Name
+		case *ast.SelectorExpr:
+			e = x.X
+		case *ast.IndexExpr:
+			e = x.X
+		case *ast.StarExpr:
+			e = x.X
+		case *ast.ParenExpr:
+			e = x.X
+		default:
+			return ""
+		}
+	}
+}
+
+// isWriter: the method body assigns through its receiver (r.f = , r.f[k] = , r.f++ , delete(r.f, k)).
+func isWriter(recv string, body *ast.BlockStmt) bool {
+	w := false
+	ast.Inspect(body, func(n ast.Node) bool {
+		switch x := n.(type) {
+		case *ast.AssignStmt:
+			for _, l := range x.Lhs {
+				if _, plain := l.(*ast.Ident); !plain && rootIdent(l) == recv {
+					w = true
+				}
+			}
+		case *ast.IncDecStmt:
+			if _, plain := x.X.(*ast.Ident); !plain && rootIdent(x.X) == recv {
+				w = true
+			}
+		case *ast.CallExpr:
+			if id, ok := x.Fun.(*ast.Ident); ok && id.Name == "delete" && len(x.Args) > 0 && rootIdent(x.Args[0]) == recv {
+				w = true
+			}
+		}
+		return true
+	})
+	return w
+}
+
+func sel(pkg, name string) *ast.SelectorExpr {
+	return &ast.SelectorExpr{X: ast.NewIdent(pkg), Sel: ast.NewIdent(name)}
+}
+func call(fun ast.Expr, args ...ast.Expr) *ast.CallExpr { return &ast.CallExpr{Fun: fun, Args: args} }
+func lit(s string) *ast.BasicLit {
+	return &ast.BasicLit{Kind: token.STRING, Value: fmt.Sprintf("%q", s)}
+}
+
+// recvChans lists the channel expressions received from in a statement (not descending into function literals).
+func recvChans(n ast.Node) []ast.Expr {
+	var out []ast.Expr
+	ast.Inspect(n, func(x ast.Node) bool {
+		switch u := x.(type) {
+		case *ast.FuncLit:
+			return false
+		case *ast.BlockStmt:
+			if x != n {
+				return false
+			}
+		case *ast.UnaryExpr:
+			if u.Op == token.ARROW {
+				out = append(out, u.X)
+			}
+		}
+		return true
+	})
+	return out
+}
+
+type rewriter struct {
+	fset    *token.FileSet
+	file    string
+	st      *stats
+	useVrt  bool
+	keepPkg map[string]bool // packages that need a `var _ =` anchor
+}
+
+func (rw *rewriter) stmtList(list []ast.Stmt) []ast.Stmt {
+	var out []ast.Stmt
+	for _, s := range list {
+		out = append(out, rw.stmt(s)...)
+	}
+	return out
+}
+
+func (rw *rewriter) block(b *ast.BlockStmt) {
+	if b != nil {
+		b.List = rw.stmtList(b.List)
+	}
+}
+
+// stmt rewrites one statement, possibly into several.
+func (rw *rewriter) stmt(s ast.Stmt) []ast.Stmt {
+	switch x := s.(type) {
+	case *ast.GoStmt:
+		// drop the detached telemetry goroutine
+		if se, ok := x.Call.Fun.(*ast.SelectorExpr); ok && se.Sel.Name == "UDPReportOnline" {
+			rw.st.dropped++
+			return nil
+		}
+		rw.st.gos++
+		rw.useVrt = true
+		rw.exprFuncLits(x.Call)
+		// evaluate the arguments now, start the thread through the scheduler
+		var pre []ast.Stmt
+		c := &ast.CallExpr{Fun: x.Call.Fun, Ellipsis: x.Call.Ellipsis}
+		for i, a := range x.Call.Args {
+			tmp := ast.NewIdent(fmt.Sprintf("vrtArg%d", i))
+			pre = append(pre, &ast.AssignStmt{Lhs: []ast.Expr{tmp}, Tok: token.DEFINE, Rhs: []ast.Expr{a}})
+			c.Args = append(c.Args, tmp)
+		}
+		body := &ast.BlockStmt{List: []ast.Stmt{&ast.ExprStmt{X: c}}}
+		goCall := &ast.ExprStmt{X: call(sel("vrt", "Go"), &ast.FuncLit{Type: &ast.FuncType{Params: &ast.FieldList{}}, Body: body})}
+		return []ast.Stmt{&ast.BlockStmt{List: append(pre, goCall)}}
+	case *ast.SendStmt:
+		rw.st.sends++
+		rw.useVrt = true
+		m := ast.NewIdent("vrtManaged")
+		return []ast.Stmt{&ast.BlockStmt{List: []ast.Stmt{
+			&ast.AssignStmt{Lhs: []ast.Expr{m}, Tok: token.DEFINE, Rhs: []ast.Expr{call(sel("vrt", "BeforeSend"), x.Chan)}},
+			x,
+			&ast.ExprStmt{X: call(sel("vrt", "AfterSend"), m)},
+		}}}
+	case *ast.RangeStmt:
+		rw.block(x.Body)
+		if isChanRange(x.X) && x.Value == nil {
+			rw.st.ranges++
+			rw.useVrt = true
+			okv := ast.NewIdent("vrtOk")
+			var lhs []ast.Expr
+			if x.Key != nil {
+				lhs = []ast.Expr{x.Key, okv}
+			} else {
+				lhs = []ast.Expr{ast.NewIdent("_"), okv}
+			}
+			tok := x.Tok
+			if tok == token.ILLEGAL {
+				tok = token.ASSIGN
+			}
+			if x.Key == nil {
+				tok = token.DEFINE
+			}
+			pre := []ast.Stmt{
+				&ast.ExprStmt{X: call(sel("vrt", "BeforeRecv"), x.X)},
+				&ast.AssignStmt{Lhs: lhs, Tok: token.DEFINE, Rhs: []ast.Expr{&ast.UnaryExpr{Op: token.ARROW, X: x.X}}},
+				&ast.IfStmt{Cond: &ast.UnaryExpr{Op: token.NOT, X: okv}, Body: &ast.BlockStmt{List: []ast.Stmt{&ast.BranchStmt{Tok: token.BREAK}}}},
+			}
+			_ = tok
+			return []ast.Stmt{&ast.ForStmt{Body: &ast.BlockStmt{List: append(pre, x.Body.List...)}}}
+		}
+		return []ast.Stmt{x}
+	case *ast.BlockStmt:
+		rw.block(x)
+		return []ast.Stmt{x}
+	case *ast.IfStmt:
+		// recover site: if r := recover(); r != nil { ... }
+		if as, ok := x.Init.(*ast.AssignStmt); ok && len(as.Rhs) == 1 && len(as.Lhs) == 1 {
+			if c, ok := as.Rhs[0].(*ast.CallExpr); ok {
+				if id, ok := c.Fun.(*ast.Ident); ok && id.Name == "recover" {
+					rw.st.recovers++
+					rw.useVrt = true
+					pos := rw.fset.Position(x.Pos())
+					site := fmt.Sprintf("%s:%d", rw.file, pos.Line)
+					x.Body.List = append([]ast.Stmt{&ast.ExprStmt{X: call(sel("vrt", "Recovered"), as.Lhs[0], lit(site))}}, x.Body.List...)
+				}
+			}
+		}
+		rw.block(x.Body)
+		if x.Else != nil {
+			x.Else = rw.stmt(x.Else)[0]
+		}
+		return rw.withRecv(x, x.Init)
+	case *ast.ForStmt:
+		rw.block(x.Body)
+		return []ast.Stmt{x}
+	case *ast.SwitchStmt:
+		rw.block(x.Body)
+		return []ast.Stmt{x}
+	case *ast.TypeSwitchStmt:
+		rw.block(x.Body)
+		return []ast.Stmt{x}
+	case *ast.SelectStmt:
+		rw.block(x.Body)
+		return []ast.Stmt{x}
+	case *ast.CaseClause:
+		x.Body = rw.stmtList(x.Body)
+		return []ast.Stmt{x}
+	case *ast.CommClause:
+		x.Body = rw.stmtList(x.Body)
+		return []ast.Stmt{x}
+	case *ast.LabeledStmt:
+		r := rw.stmt(x.Stmt)
+		if len(r) == 1 {
+			x.Stmt = r[0]
+		} else {
+			x.Stmt = &ast.BlockStmt{List: r}
+		}
+		return []ast.Stmt{x}
+	case *ast.ExprStmt:
+		rw.exprFuncLits(x.X)
+		if c, ok := x.X.(*ast.CallExpr); ok {
+			if id, ok := c.Fun.(*ast.Ident); ok && id.Name == "close" && len(c.Args) == 1 {
+				rw.st.closes++
+				rw.useVrt = true
+				return []ast.Stmt{&ast.ExprStmt{X: call(sel("vrt", "BeforeClose"), c.Args[0])}, x}
+			}
+		}
+		return rw.withRecv(x, x)
+	case *ast.AssignStmt:
+		for _, r := range x.Rhs {
+			rw.exprFuncLits(r)
+		}
+		return rw.withRecv(x, x)
+	case *ast.DeclStmt:
+		return rw.withRecv(x, x)
+	case *ast.ReturnStmt:
+		for _, r := range x.Results {
+			rw.exprFuncLits(r)
+		}
+		return rw.withRecv(x, x)
+	case *ast.DeferStmt:
+		rw.exprFuncLits(x.Call)
+		return []ast.Stmt{x}
+	}
+	return []ast.Stmt{s}
+}
+
+// withRecv prefixes a statement by vrt.BeforeRecv for every receive operation it contains.
+func (rw *rewriter) withRecv(s ast.Stmt, scan ast.Node) []ast.Stmt {
+	if scan == nil {
+		return []ast.Stmt{s}
+	}
+	var pre []ast.Stmt
+	for _, ch := range recvChans(scan) {
+		rw.st.recvs++
+		rw.useVrt = true
+		pre = append(pre, &ast.ExprStmt{X: call(sel("vrt", "BeforeRecv"), ch)})
+	}
+	return append(pre, s)
+}
+
+// exprFuncLits rewrites the bodies of function literals inside an expression.
+func (rw *rewriter) exprFuncLits(e ast.Node) {
+	ast.Inspect(e, func(n ast.Node) bool {
+		if fl, ok := n.(*ast.FuncLit); ok {
+			rw.block(fl.Body)
+			return false
+		}
+		return true
+	})
+}
+
+// selectors rewrites reflect.Select, runtime.NumCPU(), time.Now(), time.Since( in the whole file.
+func (rw *rewriter) selectors(f *ast.File) {
+	ast.Inspect(f, func(n ast.Node) bool {
+		c, ok := n.(*ast.CallExpr)
 		if !ok {
 			return true
 		}
-		var keep []ast.Stmt
-		for _, st := range bl.List {
-			if g, ok := st.(*ast.GoStmt); ok {
-				if sel, ok := g.Call.Fun.(*ast.SelectorExpr); ok && sel.Sel.Name == "UDPReportOnline" {
-					n++
-					continue
-				}
-			}
-			keep = append(keep, st)
+		se, ok := c.Fun.(*ast.SelectorExpr)
+		if !ok {
+			return true
 		}
-		bl.List = keep
+		pk, ok := se.X.(*ast.Ident)
+		if !ok {
+			return true
+		}
+		switch pk.Name + "." + se.Sel.Name {
+		case "reflect.Select":
+			c.Fun = sel("vrt", "Select")
+			rw.st.selects++
+			rw.useVrt = true
+			rw.keepPkg["reflect"] = true
+		case "runtime.NumCPU":
+			inner := &ast.CallExpr{Fun: sel("runtime", "NumCPU")}
+			c.Fun = sel("vrt", "NumCPU")
+			c.Args = []ast.Expr{inner}
+			rw.st.cpus++
+			rw.useVrt = true
+			return false
+		case "time.Now":
+			c.Fun = sel("vrt", "Now")
+			rw.st.clocks++
+			rw.useVrt = true
+			rw.keepPkg["time"] = true
+		case "time.Since":
+			c.Fun = sel("vrt", "Since")
+			rw.st.clocks++
+			rw.useVrt = true
+			rw.keepPkg["time"] = true
+		}
 		return true
 	})
+}
+
+func instrumentFile(src, rel string, st *stats) []byte {
+	fset := token.NewFileSet()
+	f, err := parser.ParseFile(fset, src, nil, parser.ParseComments)
+	must(err)
+	rw := &rewriter{fset: fset, file: rel, st: st, keepPkg: map[string]bool{}}
+	for _, d := range f.Decls {
+		fd, ok := d.(*ast.FuncDecl)
+		if !ok || fd.Body == nil {
+			continue
+		}
+		rw.block(fd.Body)
+		// shared-object methods: activation + scheduling point
+		if fd.Recv != nil && len(fd.Recv.List) == 1 && len(fd.Recv.List[0].Names) == 1 {
+			rn := fd.Recv.List[0].Names[0].Name
+			tn := ""
+			if se, ok := fd.Recv.List[0].Type.(*ast.StarExpr); ok {
+				if id, ok := se.X.(*ast.Ident); ok {
+					tn = id.Name
+				}
+			}
+			if rn != "_" && sharedTypes[tn] {
+				w := isWriter(rn, fd.Body)
+				st.methods++
+				if w {
+					st.writers++
+				}
+				rw.useVrt = true
+				wl := "false"
+				if w {
+					wl = "true"
+				}
+				enter := call(sel("vrt", "Enter"), ast.NewIdent(rn), lit(tn), lit(fd.Name.Name), ast.NewIdent(wl))
+				fd.Body.List = append([]ast.Stmt{&ast.DeferStmt{Call: call(sel("vrt", "Exit"), enter)}}, fd.Body.List...)
+			}
+		}
+	}
+	rw.selectors(f)
+	// import "sync" -> the shim (named import keeps sync.Mutex / sync.WaitGroup spellings)
+	for _, im := range f.Imports {
+		if im.Path.Value == `"sync"` {
+			im.Path.Value = `"luahelper-lsp/langserver/vrt/vsync"`
+			im.Name = ast.NewIdent("sync")
+			st.syncs++
+		}
+	}
 	var buf bytes.Buffer
 	must(format.Node(&buf, fset, f))
-	dst := filepath.Join(out, "langserver/initialize.go")
-	writeIfChanged(dst, buf.Bytes())
-	ov.Replace[src] = dst
-	fmt.Printf("vinstr: initialize.go: %d telemetry goroutine(s) dropped\n", n)
+	s := buf.String()
+	if rw.useVrt {
+		// add the import after the package clause (gofmt-insensitive: a separate import declaration)
+		i := strings.Index(s, "\nimport ")
+		if i < 0 {
+			j := strings.Index(s, "\npackage ")
+			k := strings.Index(s[j+1:], "\n") + j + 1
+			s = s[:k+1] + "\nimport vrt \"luahelper-lsp/langserver/vrt\"\n" + s[k+1:]
+		} else {
+			s = s[:i] + "\nimport vrt \"luahelper-lsp/langserver/vrt\"\n" + s[i:]
+		}
+	}
+	for p := range rw.keepPkg {
+		anchor := map[string]string{"reflect": "reflect.ValueOf", "time": "time.Second"}[p]
+		s += "\nvar _ = " + anchor + "\n"
+	}
+	return []byte("//go:build verif\n\n" + s)
 }
 
 func main() {
 	ov := &overlay{Replace: map[string]string{}}
+	var st stats
+	// 1. accessors
 	b, err := os.ReadFile(home + "/overlay/langserver_access.go.txt")
 	must(err)
 	dst := filepath.Join(out, "langserver/zz_verif_access.go")
 	writeIfChanged(dst, b)
 	ov.Replace[filepath.Join(repo, "langserver/zz_verif_access.go")] = dst
-	dropTelemetry(ov)
+	// 2. virtual packages
+	for _, p := range [][2]string{{"vrt/vrt.go.txt", "langserver/vrt/vrt.go"}, {"vsync/vsync.go.txt", "langserver/vrt/vsync/vsync.go"}} {
+		b, err := os.ReadFile(home + "/overlay/" + p[0])
+		must(err)
+		dst := filepath.Join(out, p[1])
+		writeIfChanged(dst, b)
+		ov.Replace[filepath.Join(repo, p[1])] = dst
+	}
+	// 3. instrumented sources
+	nfiles := 0
+	must(filepath.Walk(filepath.Join(repo, "langserver"), func(p string, info os.FileInfo, err error) error {
+		if err != nil {
+			return err
+		}
+		rel, _ := filepath.Rel(repo, p)
+		if info.IsDir() {
+			if strings.HasPrefix(rel, "langserver/protocol") || strings.HasPrefix(rel, "langserver/vrt") {
+				return filepath.SkipDir
+			}
+			return nil
+		}
+		if !strings.HasSuffix(p, ".go") || strings.HasSuffix(p, "_test.go") || strings.HasSuffix(p, "zz_verif_access.go") {
+			return nil
+		}
+		dst := filepath.Join(out, rel)
+		writeIfChanged(dst, instrumentFile(p, rel, &st))
+		ov.Replace[p] = dst
+		nfiles++
+		return nil
+	}))
+	// 4. Go runtime hooks
+	gr, err := exec.Command("go", "env", "GOROOT").Output()
+	must(err)
+	goroot := strings.TrimSpace(string(gr))
+	mp, err := os.ReadFile(filepath.Join(goroot, "src/runtime/map.go"))
+	must(err)
+	const needle = "r := uintptr(rand())"
+	if bytes.Count(mp, []byte(needle)) != 1 {
+		must(fmt.Errorf("runtime/map.go: expected exactly one %q", needle))
+	}
+	mp = bytes.Replace(mp, []byte(needle), []byte(needle+"\n\tif VerifMapMode != 0 {\n\t\tr = uintptr(VerifMapVal)\n\t}"), 1)
+	dst = filepath.Join(out, "goruntime/map.go")
+	writeIfChanged(dst, mp)
+	ov.Replace[filepath.Join(goroot, "src/runtime/map.go")] = dst
+	b, err = os.ReadFile(home + "/overlay/runtime/verif.go.txt")
+	must(err)
+	dst = filepath.Join(out, "goruntime/verif.go")
+	writeIfChanged(dst, b)
+	ov.Replace[filepath.Join(goroot, "src/runtime/verif.go")] = dst
+
 	jb, _ := json.MarshalIndent(ov, "", " ")
 	writeIfChanged(buildDir+"/overlay.json", jb)
+	fmt.Printf("vinstr: %d files; go=%d (telemetry dropped %d) send=%d recv=%d close=%d select=%d chan-range=%d recover=%d numcpu=%d clock=%d sync-imports=%d shared-methods=%d (writers %d)\n",
+		nfiles, st.gos, st.dropped, st.sends, st.recvs, st.closes, st.selects, st.ranges, st.recovers, st.cpus, st.clocks, st.syncs, st.methods, st.writers)
 }
